@@ -103,20 +103,15 @@ def typeOk (a : Ast) : AstType → Bool
   | .enum e => enumOk e
   | .typedef td => typedefOk a td
 
-/-- `rustName` of a declaration (the name its items are printed under) -/
-def AstType.rustName' : AstType → String
-  | .struct s => s.name
-  | .union u => u.name
-  | .enum e => e.name
-  | .typedef td => td.alias.unwrapArray.asStr
-
 def keysSorted : List (String × AstType) → Bool
   | [] => true
   | [_] => true
   | a :: b :: rest => decide (a.1 < b.1) && keysSorted (b :: rest)
 
-/-- the type index is what `TypeIndex::new` builds: keyed by the declarations' own names, strictly sorted -/
-def keysOk (a : Ast) : Bool := a.types.all (fun kv => kv.1 == kv.2.rustName') && keysSorted a.types
+/-- the type index is what `TypeIndex::new` builds: keyed by the declarations' own names (none of which needs escaping), strictly sorted -/
+def nameSafe (n : String) : Bool := (BasicType.ident n).asSafeString == n
+
+def keysOk (a : Ast) : Bool := a.types.all (fun kv => kv.1 == kv.2.rustName && nameSafe kv.1) && keysSorted a.types
 
 /-- the supported subset -/
 def Supported (a : Ast) : Bool := keysOk a && a.types.all (fun kv => typeOk a kv.2)
